@@ -30,9 +30,10 @@ NOT_APPLICABLE = [
     {"property_id": "C07", "reason": "needs >= 2 multi-threaded DomainParticipants exchanging UDP datagrams under wall-clock timers; Kani/CBMC model neither threads nor sockets, and cutting below DomainParticipant removes the scheduling and I/O the property quantifies over (its sequential ingredients are decided under C01-C05, C10-C12, C14, C15)"},
     {"property_id": "C13", "reason": "quantifies over thread interleavings at lock-release granularity; Kani has no concurrency model, and sequentialising the receive thread and the application would mean rewriting the code whose atomicity is the question"},
     {"property_id": "C16", "reason": "every clause is decided by AES-GCM/GMAC inside ring/OpenSSL (FFI + assembly): there is no body for the solver to encode, and a nondeterministic or toy stub assumes the property away or yields false alarms"},
+    {"property_id": "C17", "reason": "the deciding code is MessageReceiver::handle_parsed_message & co. with real Readers and a SecurityPlugins object; object harnesses with one handler invocation cost minutes here and two invocations with symbolic inputs do not finish in 14 GB, while C17 needs sequences of up to four submessages through the security build (plugin construction additionally needs files and OS randomness); a hand model of the gating was ruled out (DESIGN.md 8.7)"},
     {"property_id": "C19", "reason": "X.509 chain validation, signatures and DH/ECDH go through OpenSSL/ring FFI over files on disk; the three-message handshake cannot be advanced symbolically without them"},
 ]
-_PLANNED = ["C01", "C02", "C03", "C04", "C05", "C06", "C08", "C09", "C11", "C12", "C14", "C15", "C17", "C18", "C20"]
+_PLANNED = ["C01", "C02", "C03", "C04", "C05", "C06", "C08", "C09", "C11", "C12", "C14", "C15", "C18", "C20"]
 CLAIMED = sorted(p for p in PROPS if p != "SELFTEST" and PROPS[p].get("ready", True))
 for _p in _PLANNED:
     if _p not in CLAIMED:
